@@ -5,7 +5,7 @@ import sys
 import numpy as np
 
 from common import *  # noqa
-from supcommon import PLAIN_METRICS, POS_METRICS, metric_matrix, gen_matrix, gen_labels
+from supcommon import PLAIN_METRICS, POS_METRICS, metric_matrix, gen_matrix, gen_labels, embed_matrix
 
 FLOAT_MAX = sys.float_info.max
 MAXD = 1000
@@ -65,9 +65,10 @@ def make_knn_model(inst, cls, **kw):
         return opf, X, None
     opf = cls(**kw)
     opf.pre_computed_distance = True
-    opf.pre_distances = np.array(inst.D, dtype=float)
+    big, idx = embed_matrix(inst.D)
+    opf.pre_distances = big
     N = len(inst.D)
-    return opf, np.zeros((N, 1)), np.arange(N)
+    return opf, np.zeros((N, 1)), idx
 
 
 def new_subgraph(inst, labels=True):
@@ -76,14 +77,15 @@ def new_subgraph(inst, labels=True):
     if inst.X is not None:
         X = np.array(inst.X[:n], dtype=float)
         return KNNSubgraph(X, np.array(inst.labels) if labels else None)
-    return KNNSubgraph(np.zeros((n, 1)), np.array(inst.labels) if labels else None, np.arange(n))
+    _, idx = embed_matrix(inst.D)
+    return KNNSubgraph(np.zeros((n, 1)), np.array(inst.labels) if labels else None, idx[:n])
 
 
 def arcs_args(inst):
     import opfython.math.distance as d
     if inst.X is not None:
         return (d.DISTANCES[inst.metric], False, None)
-    return (d.DISTANCES["euclidean"], True, np.array(inst.D, dtype=float))
+    return (d.DISTANCES["euclidean"], True, embed_matrix(inst.D)[0])
 
 
 def adj_of(sg):
